@@ -8,6 +8,8 @@ import MimeModel.Spec.Zip
 import MimeModel.Model.XmlTok
 import MimeModel.Model.HtmlTok
 import MimeModel.Model.Closed
+import MimeModel.Model.Heap
+import MimeModel.Model.HeapAbs
 /-
   Line-protocol driver for the correspondence check (core Lean only; compiled).
   Input : one operation per line, `op args... => go-result`
@@ -214,6 +216,238 @@ def zipLayoutJudge (raw : Bytes) (goRes : String) : String :=
          | [] => none)
       | _ => none
     if bad.isEmpty then "OK" else "SPEC C19:marker-among-the-first-six-entries-not-found(" ++ String.intercalate "," bad ++ ")"
+  | _ => "SPEC C01:no-result(" ++ goRes ++ ")"
+
+/-! ### heap ops: the pointer-level model (Model/Heap.lean) replayed on the harness' script -/
+namespace HeapOp
+open Mime.Heap
+
+def nameOf (tag : Char) : String := if tag == 'T' then "text/plain" else "x/" ++ tag.toString
+def tagOf (name : String) : Char := if name == "text/plain" then 'T' else (name.toList.getD 2 '?')
+def accOf (input : String) (a : String) : Bool := input.toList.contains (tagOf a)
+def leafF (a : String) : String := if a == "text/plain" then "text/plain; charset=utf-8" else a
+def optId : Option Ptr → String
+  | none => "-" | some p => toString p
+def dump (h : Heap String) : String :=
+  String.intercalate "," (h.map fun n =>
+    n.info.replace " " "_" ++ "|" ++ optId n.parent ++ "|" ++ String.intercalate "." (n.children.map toString))
+
+structure St where
+  h : Heap String := []
+  stack : List Ptr := []
+  root : Option Ptr := none
+  results : List Ptr := []
+  obs : List String := []          -- reversed
+  chains : List (Nat × String) := []   -- result index ↦ the chain seen when it was returned
+
+def digits (s : String) : List Nat := s.toList.map (fun c => c.toNat - '0'.toNat)
+
+/-- one token of the script on the model; `none` = malformed script -/
+def step (st : St) (tok : String) : Option St :=
+  match tok.toList with
+  | [] => none
+  | 'N' :: [tag, k] =>
+    let k := k.toNat - '0'.toNat
+    if st.root.isSome || k > st.stack.length then none else
+    let kids := st.stack.drop (st.stack.length - k)
+    let (h', m) := newMIME st.h (nameOf tag) kids
+    some { st with h := h', stack := st.stack.take (st.stack.length - k) ++ [m], obs := (toString m ++ "@" ++ dump h') :: st.obs }
+  | c :: rest =>
+    let arg := String.ofList rest
+    let root? := match st.root with
+      | some r => some r
+      | none => match st.stack with | [r] => some r | _ => none
+    match root? with
+    | none => none
+    | some root =>
+    let st := { st with root := some root }
+    let fuel := st.h.length + 1
+    let out (st : St) (res : String) : Option St := some { st with obs := (res ++ "@" ++ dump st.h) :: st.obs }
+    match c with
+    | 'E' =>
+      match arg.splitOn ":" with
+      | [path, tg] =>
+        match tg.toList with
+        | [tag] =>
+          match nodeAt st.h root (digits path) with
+          | none => out st "nopath"
+          | some m => match extend st.h m (nameOf tag) with
+            | none => out st "FAULT"
+            | some (h', c) => out { st with h := h' } (toString c)
+        | _ => none
+      | _ => none
+    | 'X' =>
+      match arg.splitOn ":" with
+      | [k, tg] =>
+        match tg.toList, k.toNat? with
+        | [tag], some k =>
+          match st.results[k]? with
+          | none => out st "noresult"
+          | some m => match extend st.h m (nameOf tag) with
+            | none => out st "FAULT"
+            | some (h', c) => out { st with h := h' } (toString c)
+        | [_], none => out st "noresult"
+        | _, _ => none
+      | _ => none
+    | 'M' =>
+      match matchH (accOf arg) leafF st.h root fuel with
+      | .ok (h', r) =>
+        let ch := match parentChain h' r (h'.length + 1) with
+          | some l => String.intercalate "<" (l.map (·.replace " " "_"))
+          | none => "NOCHAIN"
+        out { st with h := h', results := st.results ++ [r], chains := st.chains ++ [(st.results.length, ch)] } (toString r)
+      | .fault => out st "FAULT"
+      | .oof => out st "OOF"
+    | 'L' =>
+      match rest with
+      | [tag] =>
+        match lookupH (· == nameOf tag) st.h root fuel with
+        | some r => out st (optId r)
+        | none => out st "FAULT"
+      | _ => none
+    | 'P' =>
+      match arg.toNat? with
+      | none => out st "noresult"
+      | some k => match st.results[k]? with
+        | none => out st "noresult"
+        | some r => match parentChain st.h r (st.h.length + 1) with
+          | some l => out st (String.intercalate "<" (l.map (·.replace " " "_")))
+          | none => out st "NOCHAIN"
+    | _ => none
+
+/-- a heap dumped by the harness: `name|parent|k1.k2…` per node, `-` = nil, `?` = a pointer
+    to a node the harness never saw (→ no heap) -/
+def parseHeap (d : String) : Option (Heap String) :=
+  if d == "" then some [] else
+  (d.splitOn ",").mapM fun nd =>
+    match nd.splitOn "|" with
+    | [nm, par, kids] => do
+      let p ← if par == "-" then some none else par.toNat?.map some
+      let ks ← if kids == "" then some [] else (kids.splitOn ".").mapM (·.toNat?)
+      pure { info := nm, parent := p, children := ks }
+    | _ => none
+
+/-- judges on the implementation's heap, through the abstraction function (`Model/HeapAbs.lean`:
+    `abs h root = some t ↔ Rep h root none t`): (c) after every operation the heap at the root
+    satisfies the representation invariant (parent pointers agree with children lists, no node is
+    reachable twice); (d) a `match` result's chain is the first-match path of the tree that heap
+    represents, with the parameter on the leaf -/
+def invSpecs (script : String) (goObs : List String) : List String := Id.run do
+  let toks := script.splitOn ","
+  let nBuild := (toks.filter (·.startsWith "N")).length
+  if nBuild == 0 then return []
+  let rootId := (((goObs.getD (nBuild - 1) "").splitOn "@").headD "").toNat?
+  match rootId with
+  | none => return []
+  | some root =>
+  let mut out : List String := []
+  let mut prev : Option (Tree String) := none
+  for (tok, ob) in (toks.zip goObs).drop (nBuild - 1) do
+    let res := (ob.splitOn "@").headD ""
+    let d := (ob.splitOn "@").getD 1 ""
+    match parseHeap d with
+    | none => out := out ++ ["SPEC C03:tree-invariant-broken(pointer-to-unknown-node)", "SPEC C14:tree-invariant-broken(pointer-to-unknown-node)"]; prev := none
+    | some gh =>
+      match HeapAbs.abs gh root with
+      | none => out := out ++ ["SPEC C03:tree-invariant-broken(parent-pointers-vs-children)", "SPEC C14:tree-invariant-broken(parent-pointers-vs-children)"]; prev := none
+      | some t =>
+        if tok.startsWith "M" then
+          match prev, res.toNat? with
+          | some t0, some r =>
+            let input := (tok.drop 1).toString
+            let want := applyHead leafF ((t0.walk (accOf input)).reverse)
+            let got := parentChain gh r (gh.length + 1)
+            if got != some (want.map (·.replace " " "_")) then
+              out := out ++ ["SPEC C03:chain-not-first-match-path", "SPEC C02:chain-not-rooted"]
+          | _, _ => pure ()
+        prev := some t
+  return out.eraseDups
+
+def run (script : String) : Option St :=
+  (script.splitOn ",").foldlM step {}
+
+/-- number of nodes in a dump -/
+def dumpSize (d : String) : Nat := if d == "" then 0 else (d.splitOn ",").length
+
+/-- judges on the implementation's own observations (independent of the model's heap):
+    (a) the nodes of a result are new: a `match` result and its ancestors have ids that did not
+        exist before the call; (b) the chain a caller sees from an earlier result never changes -/
+def specs (script : String) (goObs : List String) : List String := Id.run do
+  let toks := script.splitOn ","
+  let mut out : List String := []
+  let mut prevSize := 0
+  let mut chains : List String := []   -- chain of result k as first seen (from the dump at its M op)
+  for (tok, ob) in toks.zip goObs do
+    let res := (ob.splitOn "@").headD ""
+    let d := (ob.splitOn "@").getD 1 ""
+    let nodes := (d.splitOn ",").toArray
+    let chainFrom (start : String) : String := Id.run do
+      let mut cur := start
+      let mut names : List String := []
+      for _ in [0:70] do
+        match cur.toNat? with
+        | none => break
+        | some i =>
+          match (nodes[i]?).map (·.splitOn "|") with
+          | some [nm, par, _] => names := names ++ [nm]; cur := par
+          | _ => cur := "-"
+      return String.intercalate "<" names
+    if tok.startsWith "M" then
+      match res.toNat? with
+      | some r =>
+        if r < prevSize then out := out ++ ["SPEC C03:result-aliases-the-tree", "SPEC C04:result-aliases-the-tree"]
+        -- every ancestor is new as well
+        let mut cur := res
+        for _ in [0:70] do
+          match cur.toNat? with
+          | none => break
+          | some i =>
+            if i < prevSize then out := out ++ ["SPEC C03:result-ancestor-aliases-the-tree", "SPEC C14:result-ancestor-aliases-the-tree"]; break
+            match (nodes[i]?).map (·.splitOn "|") with
+            | some [_, par, _] => cur := par
+            | _ => cur := "-"
+        chains := chains ++ [chainFrom res]
+      | none => out := out ++ ["SPEC C03:no-result(" ++ res ++ ")"]; chains := chains ++ ["?"]
+    if tok.startsWith "P" then
+      match (tok.drop 1).toString.toNat? with
+      | some k => match chains[k]? with
+        | some c => if c != "?" && res != c then out := out ++ ["SPEC C14:earlier-result-changed", "SPEC C03:parent-chain-changed-after-return"]
+        | none => pure ()
+      | none => pure ()
+    prevSize := dumpSize d
+  return out.eraseDups
+
+def judge (script goRes : String) : String :=
+  if (goRes.splitOn "%").contains "PANIC" then "SPEC C01:panic-in-tree-operations" else
+  match run script with
+  | none => if goRes == "BADSCRIPT" then "OK" else "BAD heap script"
+  | some st =>
+    let model := String.intercalate "%" st.obs.reverse
+    let sp := specs script (goRes.splitOn "%") ++ invSpecs script (goRes.splitOn "%")
+    let d := if model == goRes then [] else
+      -- the first observation that differs
+      let ms := st.obs.reverse
+      let gs := goRes.splitOn "%"
+      let i := ((ms.zip gs).takeWhile (fun p => p.1 == p.2)).length
+      [s!"DIFF heap at-op={i} model={ms.getD i "-"}"]
+    let all := d ++ sp
+    if all.isEmpty then "OK" else String.intercalate " ; " all
+end HeapOp
+
+/-- `resext` / `resext1`: Extend on a detection result (and its ancestors / the result only) -/
+def resextJudge (goRes : String) : String :=
+  match goRes.splitOn " " with
+  | [c1, c2, same] =>
+    let a := if same != "T" then "SPEC C14:Extend-on-a-detection-result-changed-the-tree ; SPEC C04:result-aliases-the-tree ; SPEC C03:result-aliases-the-tree" else ""
+    let b := if c1 != c2 then "SPEC C03:path-contains-a-node-outside-the-registered-tree ; SPEC C04:same-input-classified-differently ; SPEC C14:earlier-result-changed" else ""
+    -- C02: no ancestor of a result carries parameters (before or after the Extend calls)
+    let anc (c : String) : Bool := ((c.splitOn ",").drop 1).any fun e =>
+      match unhex ((e.splitOn "|").headD "") with
+      | some m => m.contains 0x3b
+      | none => true
+    let c := if anc c1 || anc c2 then "SPEC C02:ancestor-carries-parameters" else ""
+    let all := [a, b, c].filter (· != "")
+    if all.isEmpty then "OK" else String.intercalate " ; " all
   | _ => "SPEC C01:no-result(" ++ goRes ++ ")"
 
 def handle (line : String) : String :=
@@ -457,14 +691,21 @@ def handle (line : String) : String :=
         let all := [d1, d2, d3, d3b, d4, d5, d6, d7, d8].filter (· != "")
         if all.isEmpty then "OK" else String.intercalate " ; " all
       | _, _, _ => "BAD args"
-    | ["resext", _hx, _lim] =>
-      match goRes.splitOn " " with
-      | [c1, c2, same] =>
-        let a := if same != "T" then "SPEC C14:Extend-on-a-detection-result-changed-the-tree ; SPEC C04:result-aliases-the-tree ; SPEC C03:result-aliases-the-tree" else ""
-        let b := if c1 != c2 then "SPEC C03:path-contains-a-node-outside-the-registered-tree ; SPEC C04:same-input-classified-differently ; SPEC C14:earlier-result-changed" else ""
-        let all := [a, b].filter (· != "")
-        if all.isEmpty then "OK" else String.intercalate " ; " all
-      | _ => "SPEC C01:no-result(" ++ goRes ++ ")"
+    | ["heap", script] => HeapOp.judge script goRes
+    | ["realheap", script] =>
+      match applyScript script Gen.builtin, HeapOp.parseHeap goRes with
+      | some T, some gh =>
+        match HeapAbs.absFp gh 0 with
+        | none => "SPEC C14:tree-invariant-broken(parent-pointers-vs-children) ; SPEC C03:tree-invariant-broken(parent-pointers-vs-children)"
+        | some (t, fp) =>
+          let a := if fp.length != gh.length then "SPEC C14:tree-invariant-broken(node-not-reachable-from-root)" else ""
+          let b := if t.flatten != T.flatten.map (fun i => bhex i.mime) then "DIFF tree-after-extend ; SPEC C14:tree-shape-after-extend" else ""
+          let all := [a, b].filter (· != "")
+          if all.isEmpty then "OK" else String.intercalate " ; " all
+      | some _, none => "SPEC C14:tree-invariant-broken(pointer-to-unknown-node) ; SPEC C03:tree-invariant-broken(pointer-to-unknown-node)"
+      | none, _ => if goRes == "BADSCRIPT" then "OK" else "BAD script"
+    | ["resext", _hx, _lim] => resextJudge goRes
+    | ["resext1", _hx, _lim] => resextJudge goRes
     | ["xlookup", script, nm] =>
       match unhex nm, applyScript script Gen.builtin with
       | some name, some T =>
